@@ -60,7 +60,7 @@ def longest_punct(text, pos):
     return None
 
 
-def audit(text, toks, keyword_types):
+def audit(text, toks, keyword_types, prefix=False):
     """
     toks: list of (type, value, lexpos, lineno, colno).  Returns a list of
     (mechanism, detail); the oracle proper.
@@ -98,7 +98,7 @@ def audit(text, toks, keyword_types):
                         'gives %s:%s' % (typ, val[:20], pos, line, col, eline, ecol)))
         prev_end = pos + len(val)
     tail = text[prev_end:]
-    if not only_layout(tail):
+    if not prefix and not only_layout(tail):
         out.append(('C06:tail_not_layout', 'text after the last token %r is not only layout and comments' % tail[:40]))
     return out
 
@@ -127,6 +127,10 @@ SOUP_COMMENTS = ['/* c */', '/**/', '/* a\n b */', '/* a\r\n b\r c */', '/* x y 
                  '//', '/* * / ** */', '/*\n*/']
 
 
+# characters no token can start with and that are not white space: the lexer has to stop at them
+SOUP_ILLEGAL = ['#', '@', '`', '\\', '\u200b', '\x00', '\x7f', '\x85']
+
+
 def soup(rng):
     n = rng.randint(3, 25)
     parts = []
@@ -144,6 +148,8 @@ def soup(rng):
             tok = rng.choice(jsgen.REGEXES)
         elif k < 0.64:
             tok = rng.choice(SOUP_COMMENTS)
+        elif k < 0.655:
+            tok = rng.choice(SOUP_ILLEGAL)
         else:
             tok = rng.choice(SOUP_PUNCT)
         parts.append(tok)
@@ -167,11 +173,18 @@ def lex_all(text):
     from calmjs.parse.lexers.es5 import Lexer
     lx = Lexer(yield_comments=True)
     lx.input(text)
+    from calmjs.parse.exceptions import ECMASyntaxError
     out = []
-    for t in lx:
-        out.append((t.type, t.value, t.lexpos, t.lineno, getattr(t, 'colno', None)))
-        if len(out) > 20000:
-            break
+    try:
+        for t in lx:
+            out.append((t.type, t.value, t.lexpos, t.lineno, getattr(t, 'colno', None)))
+            if len(out) > 20000:
+                break
+    except ECMASyntaxError as e:
+        # the tokens handed out before the lexer gave up are still a segmentation of a prefix
+        e.tokens_before = out
+        e.keyword_types = set(Lexer.keywords)
+        raise
     return out, set(Lexer.keywords)
 
 
@@ -179,9 +192,18 @@ def check(ctx, text, origin):
     from calmjs.parse.exceptions import ECMASyntaxError
     try:
         toks, kw = lex_all(text)
-    except ECMASyntaxError:
+    except ECMASyntaxError as e:
         ctx.count(origin + ':lexer_raises')
         ctx.case(text, False)
+        toks = getattr(e, 'tokens_before', None)
+        if toks and not work.skip_known(ctx, text, None):
+            ctx.hit('tokens_checked', len(toks))
+            seen = set()
+            for mech, detail in audit(text, toks, e.keyword_types, prefix=True):
+                if mech not in seen:
+                    seen.add(mech)
+                    ctx.violation(mech, {'text': text}, '%s (tokens before the lexer raised %s)\ninput: %r' % (
+                        detail, e, text[:300]))
         return
     if work.skip_known(ctx, text, None):
         ctx.case(text, False)
